@@ -74,6 +74,10 @@ func (g *typesGen) texpr(rank int, from string, self string, depth int, allowAny
 			if inner == "uint8" {
 				inner = "uint16" // []uint8 IS []byte
 			}
+			if os.Getenv("VH_ARRAYS") != "" && r.Chance(1, 3) {
+				// C14: a fixed-size array wherever a slice can stand (whatever the tool documents for it, it must finish)
+				return rng.Pick(r, []string{"[2]", "[4]", "[][2]", "*[3]"}) + inner
+			}
 			return "[]" + inner
 		}
 		return "map[string]" + inner
